@@ -2,6 +2,8 @@ SPECIFICATION SimSpec
 CONSTANTS
   WorkerCpus <- S3_Workers
   WorkerGroup <- S3_Groups
+  WorkerLife <- S3_Life
+  MaxTicks = 0
   Menu <- S3_Menu
   OpenJobs <- S3_Open
   Classes <- S3_Classes
